@@ -329,7 +329,9 @@ def main():
             samples.append(c)
         for sig, what in fails:
             failures.append({"signature": sig, "what": what, "case": c})
-    print(json.dumps({"evaluations": len(cases), "distinct": len(distinct), "samples": samples,
+        if len(failures) >= 20:  # enough to report; do not spend the failing-input search budget on more
+            break
+    print(json.dumps({"evaluations": sum(kinds.values()), "distinct": len(distinct), "samples": samples,
                       "kinds": kinds, "failures": failures[:20]}))
 
 
